@@ -6,6 +6,7 @@ import (
 	"math/rand"
 	"os"
 	"path/filepath"
+	"sort"
 	"strings"
 
 	"verif/internal/proto"
@@ -472,8 +473,44 @@ func (g *c10Gen) clause() (*term.Term, map[int64]*term.Term) {
 		}
 		walk(cl.Args[1])
 	}
+	// variable goals that are direct conjuncts of a top-level alternative: bound to a conjunction, the clause term in
+	// force is the flattened body, so a cut inside the bound conjunction is a cut of the clause
+	topVars := map[int64]bool{}
+	if cl.IsCmp(":-", 2) {
+		var conjuncts func(t *term.Term)
+		conjuncts = func(t *term.Term) {
+			if t.IsCmp(",", 2) {
+				conjuncts(t.Args[0])
+				conjuncts(t.Args[1])
+			} else if t.K == term.KVar {
+				topVars[t.I] = true
+			}
+		}
+		alt := cl.Args[1]
+		for alt.IsCmp(";", 2) && !alt.Args[0].IsCmp("->", 2) {
+			conjuncts(alt.Args[0])
+			alt = alt.Args[1]
+		}
+		if !alt.IsCmp(";", 2) {
+			conjuncts(alt)
+		}
+	}
+	ids := make([]int64, 0, len(goalVars))
 	for id := range goalVars {
+		ids = append(ids, id)
+	}
+	sort.Slice(ids, func(a, b int) bool { return ids[a] < ids[b] })
+	for _, id := range ids {
 		binds[id] = []*term.Term{term.C("m", term.V(100+id)), term.A("true"), term.C("n", term.A("a")), term.C("=", term.V(100+id), term.A("z"))}[g.r.Intn(4)]
+		if topVars[id] && g.r.Intn(3) == 0 {
+			mv := term.C("m", term.V(100+id))
+			cut := term.A("!")
+			binds[id] = []*term.Term{
+				term.C(",", mv, cut), cut, term.C(",", cut, term.C("n", term.A("a"))),
+				term.C(",", term.A("true"), term.C(",", mv, cut)), term.C(",", term.C(",", mv, cut), term.C("n", term.V(400+id))),
+				term.C(",", mv, term.C("n", term.V(400+id))),
+			}[g.r.Intn(6)]
+		}
 	}
 	for id := int64(0); id < g.nv; id++ {
 		if _, ok := binds[id]; ok || g.r.Intn(100) >= 35 {
